@@ -13,6 +13,9 @@ type Outcome struct {
 	Obs     []core.Obligation
 }
 
+// VerifDir is where the behaviour-preserving corpus and the compound cases live.
+var VerifDir = "/verif"
+
 // Run is filled in by catalogue.go.
 func Run(c *core.Ctx, p *core.Property, repo string) Outcome {
 	return run(c, p, repo)
